@@ -8,6 +8,8 @@ pub struct NCb {
     pub sends: u32,
     pub last_addr: u8,
     pub last_byte: u8,
+    /// the socket refuses the datagram (send error)
+    pub fail: bool,
 }
 impl Callback<u8> for NCb {
     type Error = ();
@@ -16,6 +18,9 @@ impl Callback<u8> for NCb {
         self.sends += 1;
         self.last_addr = addr;
         self.last_byte = if data.len() > 0 { data[0] } else { 0 };
+        if self.fail {
+            return Err(());
+        }
         Ok(())
     }
     fn time(&mut self) -> Timestamp {
@@ -91,7 +96,7 @@ fn route_feed(event: u8) {
     let id_b: u32 = 1;
     let mut net = two_peers(kani::any(), id_a, id_b);
     Connection::verif_set_disconnect_event(event);
-    let mut cb = NCb { sends: 0, last_addr: 0, last_byte: 0 };
+    let mut cb = NCb { sends: 0, last_addr: 0, last_byte: 0, fail: false };
     let mut w = NWarn(0);
     let data: [u8; 3] = kani::any();
     let mut buf = [0u8; 8];
@@ -145,7 +150,7 @@ fn c20_route_send_flush() {
     let id_a: u32 = 0;
     let id_b: u32 = 1;
     let mut net = two_peers(kani::any(), id_a, id_b);
-    let mut cb = NCb { sends: 0, last_addr: 0, last_byte: 0 };
+    let mut cb = NCb { sends: 0, last_addr: 0, last_byte: 0, fail: false };
     let data: [u8; 2] = kani::any();
     let to_b: bool = kani::any();
     let pid = PeerId(if to_b { id_b } else { id_a });
@@ -171,13 +176,17 @@ fn c20_disconnect_removes_only_that_peer() {
     let id_b: u32 = 1;
     let mut net = two_peers(kani::any(), id_a, id_b);
     net.peers.get_mut(PeerId(id_a)).unwrap().conn.verif_set_online();
-    let mut cb = NCb { sends: 0, last_addr: 0, last_byte: 0 };
+    let mut cb = NCb { sends: 0, last_addr: 0, last_byte: 0, fail: false };
     let by_ignore: bool = kani::any();
+    // the peer is gone afterwards whether or not the close datagram could be handed to the socket
+    cb.fail = kani::any();
     if by_ignore {
         net.ignore(PeerId(id_a));
     } else {
-        assert!(net.disconnect(&mut cb, PeerId(id_a), b"x").is_ok());
+        let r = net.disconnect(&mut cb, PeerId(id_a), b"x");
+        assert!(r.is_ok() == !cb.fail);
         assert!(cb.sends == 1 && cb.last_addr == ADDR_A);
+        kani::cover!(cb.fail, "send error during disconnect");
     }
     // gone afterwards; B untouched; a datagram from A's address is now handled statelessly
     assert!(net.peers.get(PeerId(id_a)).is_none());
@@ -194,7 +203,7 @@ fn c20_tick_visits_each_peer_once() {
     let id_a: u32 = 0;
     let id_b: u32 = 1;
     let mut net = two_peers(kani::any(), id_a, id_b);
-    let mut cb = NCb { sends: 0, last_addr: 0, last_byte: 0 };
+    let mut cb = NCb { sends: 0, last_addr: 0, last_byte: 0, fail: false };
     {
         let mut t = net.tick(&mut cb);
         assert!(t.next().is_none());
@@ -213,7 +222,7 @@ fn unknown_addr(kind: u8) {
     protocol::Packet::verif_set_kind(kind);
     let server: bool = kani::any();
     let mut net = two_peers(server, 0, 1);
-    let mut cb = NCb { sends: 0, last_addr: 0, last_byte: 0 };
+    let mut cb = NCb { sends: 0, last_addr: 0, last_byte: 0, fail: false };
     let mut w = NWarn(0);
     let data: [u8; 3] = kani::any();
     let mut buf = [0u8; 8];
@@ -260,4 +269,57 @@ fn c20_unknown_addr_chunks() {
 #[kani::stub(crate::protocol::Packet::read, crate::protocol::Packet::verif_read_stub)]
 fn c20_unknown_addr_close() {
     unknown_addr(1);
+}
+
+#[kani::proof]
+#[kani::unwind(5)]
+#[kani::stub(crate::connection::Connection::disconnect, crate::connection::Connection::verif_disconnect_stub)]
+fn c20_reject_removes_only_that_peer() {
+    // rejecting a pending (still unconnected) incoming peer: exactly its connection is closed, through
+    // its own address, and it is gone afterwards - also when the socket refuses the datagram
+    let id_a: u32 = 0;
+    let id_b: u32 = 1;
+    let mut net = two_peers(true, id_a, id_b);
+    let mut cb = NCb { sends: 0, last_addr: 0, last_byte: 0, fail: kani::any() };
+    let r = net.reject(&mut cb, PeerId(id_a), b"no");
+    assert!(r.is_ok() == !cb.fail);
+    let (calls, tag) = Connection::verif_calls();
+    assert!(calls == 1 && tag == TAG_A);
+    assert!(cb.sends == 1 && cb.last_addr == ADDR_A);
+    assert!(net.peers.get(PeerId(id_a)).is_none());
+    assert!(net.peers.pid_from_addr(ADDR_A).is_none());
+    assert!(b_untouched(&net, id_b));
+    core::mem::forget(net);
+}
+
+#[kani::proof]
+#[kani::unwind(5)]
+fn c20_needs_tick_is_earliest_peer_deadline() {
+    // the endpoint's deadline is the earliest deadline of its peers: a peer without a deadline (a
+    // pending incoming connection) does not hide the deadline of an established one, and two
+    // established peers report the earlier of their deadlines (real Connection::needs_tick)
+    let id_a: u32 = 0;
+    let id_b: u32 = 1;
+    let mut net = two_peers(kani::any(), id_a, id_b);
+    let ta: u64 = kani::any::<u64>() >> 1;
+    let tb: u64 = kani::any::<u64>() >> 1;
+    let b_online: bool = kani::any();
+    {
+        let a = net.peers.get_mut(PeerId(id_a)).unwrap();
+        a.conn.verif_set_online();
+        a.conn.verif_set_tag(ta);
+    }
+    {
+        let b = net.peers.get_mut(PeerId(id_b)).unwrap();
+        if b_online {
+            b.conn.verif_set_online();
+        }
+        b.conn.verif_set_tag(tb);
+    }
+    let nt = net.needs_tick();
+    let expect = if b_online && tb < ta { tb } else { ta };
+    assert!(nt == Timeout::active(Timestamp::from_usecs_since_epoch(expect)));
+    kani::cover!(!b_online);
+    kani::cover!(b_online && tb < ta);
+    core::mem::forget(net);
 }
